@@ -106,6 +106,8 @@ func judgeForCase(c forCase, rec *hx.Rec) string {
 		add(i.BodyStartsWithFor, "labelled_body_starts_with_for")
 		add(i.NoCounter, "block_without_counter")
 		add(i.EquBetweenBlocks, "equ_defined_between_items")
+		add(i.LabelledBodyStartsWithBareFor, "labelled_body_starts_with_counterless_for")
+		add(i.ChainedEqu, "chained_equ")
 		add(i.Instances > 12, "more_than_12_instances")
 		add(c.RofAtEOF, "rof_is_last_bytes")
 		add(i.MaxDepth >= 3, "depth_3")
